@@ -604,6 +604,8 @@ class Unit:
             prefix = '#[verifier::external_body]\n'
             rules.add('E7')
             self.external.append(f'{path} ({rel}): body outside the Verus subset, contract trusted here and discharged by the paired Kani obligation: ' + ' '.join(contract.split()))
+        if sub.get('external_body'):
+            body = '{ unimplemented!() }   // body not in the Verus subset: dropped (E7), see the paired Kani obligation'
         out = prefix + sig + '\n' + contract + body + '\n'
         self.items.append({'item': f'fn {path}', 'file': rel, 'sha256_16': sha(raw), 'rules': sorted(rules)})
         return out
@@ -632,6 +634,12 @@ class Unit:
                 text = open(p).read()
                 # single-file unit: everything is crate-private (rule E2 for spec text)
                 text = re.sub(r'\bpub\s+(open\s+|closed\s+)?(?=(spec|proof|exec|fn|broadcast)\b)', '', text)
+                for w in d[2:]:
+                    if w.startswith('opaque='):
+                        for fnname in w[len('opaque='):].split(','):
+                            text, nsub = re.subn(r'(?m)^(\s*)spec fn ' + re.escape(fnname) + r'\(', r'\1#[verifier::opaque]\n\1spec fn ' + fnname + '(', text)
+                            if nsub != 1:
+                                raise ExtractError(f'include {d[1]}: cannot mark {fnname} opaque')
                 self.items.append({'item': f'include {d[1]}', 'file': d[1], 'sha256_16': sha(text), 'rules': ['spec']})
                 out.append(text)
                 i += 1
